@@ -221,17 +221,22 @@ def kinds(cfg: FCfg, limit: int) -> dict[str, tuple[str, str, int]]:
             return {"V": ("safe", "valid", 5), "U": ("safe", "undec", 5)}
         # file based: frame length T (header included) <= limit-1 is safe
         return {"V1": ("safe", "valid", 1), "V": ("safe", "valid", 3), "U": ("safe", "undec", 3), "SAFEMAX": ("safe", "valid", limit - 1), "V5": ("safe", "valid", 5)}
-    return {
-        "V1": ("safe", "valid", 1),
-        "V": ("safe", "valid", 3),
-        "U": ("safe", "undec", 3),
-        "SAFEMAX": ("safe", "valid", limit - 1 - s),
-        "USAFEMAX": ("safe", "undec", limit - 1 - s),
-        "BANDLO": ("band", "valid", limit - s),
-        "BANDHI": ("band", "valid", limit),
-        "OVER1": ("over", "valid", limit + 1),
-        "FAR": ("over", "valid", 2 * limit + 3),
+    def cls(n: int) -> str:
+        # the class follows from the size alone (a 3-byte payload is not "safely within" limit 6 with a 3-byte separator)
+        return "safe" if n <= limit - 1 - s else ("band" if n <= limit else "over")
+
+    table = {
+        "V1": ("valid", 1),
+        "V": ("valid", 3),
+        "U": ("undec", 3),
+        "SAFEMAX": ("valid", limit - 1 - s),
+        "USAFEMAX": ("undec", limit - 1 - s),
+        "BANDLO": ("valid", limit - s),
+        "BANDHI": ("valid", limit),
+        "OVER1": ("valid", limit + 1),
+        "FAR": ("valid", 2 * limit + 3),
     }
+    return {k: (cls(n), what, n) for k, (what, n) in table.items()}
 
 
 def _round_b64(cfg: FCfg, what: str, n: int) -> int:
